@@ -524,8 +524,8 @@ where
 
     fn set_resample_ratio(&mut self, new_ratio: f64, ramp: bool) -> ResampleResult<()> {
         trace!("Change resample ratio to {}", new_ratio);
-        if (new_ratio / self.resample_ratio_original >= 1.0 / self.max_relative_ratio)
-            && (new_ratio / self.resample_ratio_original <= self.max_relative_ratio)
+        if (new_ratio >= self.resample_ratio_original / self.max_relative_ratio)
+            && (new_ratio <= self.resample_ratio_original * self.max_relative_ratio)
         {
             if !ramp {
                 self.resample_ratio = new_ratio;
@@ -543,7 +543,19 @@ where
 
     fn set_resample_ratio_relative(&mut self, rel_ratio: f64, ramp: bool) -> ResampleResult<()> {
         let new_ratio = self.resample_ratio_original * rel_ratio;
-        self.set_resample_ratio(new_ratio, ramp)
+        if (rel_ratio >= 1.0 / self.max_relative_ratio) && (rel_ratio <= self.max_relative_ratio) {
+            if !ramp {
+                self.resample_ratio = new_ratio;
+            }
+            self.target_ratio = new_ratio;
+            Ok(())
+        } else {
+            Err(ResampleError::RatioOutOfBounds {
+                provided: new_ratio,
+                original: self.resample_ratio_original,
+                max_relative_ratio: self.max_relative_ratio,
+            })
+        }
     }
 
     fn reset(&mut self) {
@@ -855,8 +867,8 @@ where
 
     fn set_resample_ratio(&mut self, new_ratio: f64, ramp: bool) -> ResampleResult<()> {
         trace!("Change resample ratio to {}", new_ratio);
-        if (new_ratio / self.resample_ratio_original >= 1.0 / self.max_relative_ratio)
-            && (new_ratio / self.resample_ratio_original <= self.max_relative_ratio)
+        if (new_ratio >= self.resample_ratio_original / self.max_relative_ratio)
+            && (new_ratio <= self.resample_ratio_original * self.max_relative_ratio)
         {
             if !ramp {
                 self.resample_ratio = new_ratio;
@@ -876,7 +888,20 @@ where
 
     fn set_resample_ratio_relative(&mut self, rel_ratio: f64, ramp: bool) -> ResampleResult<()> {
         let new_ratio = self.resample_ratio_original * rel_ratio;
-        self.set_resample_ratio(new_ratio, ramp)
+        if (rel_ratio >= 1.0 / self.max_relative_ratio) && (rel_ratio <= self.max_relative_ratio) {
+            if !ramp {
+                self.resample_ratio = new_ratio;
+            }
+            self.target_ratio = new_ratio;
+            self.update_needed_len();
+            Ok(())
+        } else {
+            Err(ResampleError::RatioOutOfBounds {
+                provided: new_ratio,
+                original: self.resample_ratio_original,
+                max_relative_ratio: self.max_relative_ratio,
+            })
+        }
     }
 
     fn reset(&mut self) {
